@@ -114,7 +114,7 @@ BREAKING = [
     ('c04-cjalr-rd0', ['C04'], [(A, "        'c.jalr': [\n            NameEquals('jalr'),\n            RegEquals('rd', 1),", "        'c.jalr': [\n            NameEquals('jalr'),\n            RegEquals('rd', 0),")]),
     ('c04-cswsp-no-div', ['C04', 'C12'], [(A, "        'c.swsp': [\n            NameEquals('sw'),\n            RegEquals('rs1', 2),\n            ImmDivisibleBy(4),", "        'c.swsp': [\n            NameEquals('sw'),\n            RegEquals('rs1', 2),")]),
     ('c04-factory-between', ['C20'], [(A, "            return reg >= lo and reg <= hi", "            return reg > lo and reg <= hi")]),
-    ('c04-factory-imm-ne', ['C04'], [(A, "            return imm != value", "            return imm == value")]),
+    ('c04-factory-imm-ne', ['C04'], [(A, "            return imm is not None and imm != value", "            return imm is not None and imm == value")]),
     ('c04-shrink-wrong-pass-order', ['C04', 'C20'], [(A, "    items = resolve_register_aliases(items, constants)\n    if compress:\n        items = transform_compressible(items, constants, labels)\n    items = resolve_aligns(items, labels)", "    items = resolve_register_aliases(items, constants)\n    items = resolve_aligns(items, labels)")]),
     ('c04-mv-alt-wrong', ['C04'], [(A, "                inst = CRTypeInstruction(item.line, compressed, item.rd, item.rs1)", "                inst = CRTypeInstruction(item.line, compressed, item.rs1, item.rd)")]),
     ('c04-candi-shamt', ['C12'], [(A, "            elif compressed == 'c.andi':\n                inst = CBTypeInstruction(item.line, compressed, item.rd, item.imm)", "            elif compressed == 'c.andi':\n                inst = CBTypeInstruction(item.line, compressed, item.rd, Arithmetic(item.imm))")]),
@@ -730,8 +730,19 @@ BREAKING += [
 
 # after fix 075cc1d no compression rule for jalr looks at a label-dependent immediate any more: a predicate that only serves
 # addi / lui rules may evaluate the immediate directly (those items never carry is_auipc_jump)
+# (superseded by fix 372b5f8: the three remaining Imm* predicates now go through stable_immediate)
+_STABLE_JB = "        if isinstance(i, (JTypeInstruction, BTypeInstruction)) and isinstance(imm, Offset):\n            if imm.reference in labels and imm.reference not in constants:\n                return eval_immediate(i, p, e)\n"
 PRESERVING += [
-    ('p3-pred-raw-eval-notequals', None, [(A, "            imm = eval_immediate(i, p, e)\n            return imm != value", "            imm = i.imm.eval(p, e, i.line)\n            return imm != value")]),
+    ('p4-stable-rename', None, [(A, "        plain = imm.expr if isinstance(imm, (Hi, Lo)) else imm\n        if isinstance(plain, Arithmetic):", "        inner_expr = imm.expr if isinstance(imm, (Hi, Lo)) else imm\n        if isinstance(inner_expr, Arithmetic):")]),
+    ('p4-stable-merged-test', None, [(A, _STABLE_JB, "        if isinstance(i, (JTypeInstruction, BTypeInstruction)) and isinstance(imm, Offset) and imm.reference in labels and imm.reference not in constants:\n            return eval_immediate(i, p, e)\n")]),
+]
+BREAKING += [
+    # a pc-relative label offset taken as stable for every instruction (addi a0 a0 %offset(L): `!= 0` can stop holding)
+    ('c4-stable-offset-any-instruction', ['C12'], [(A, "        if isinstance(i, (JTypeInstruction, BTypeInstruction)) and isinstance(imm, Offset):", "        if isinstance(imm, Offset):")]),
+    # the "final" immediate evaluated against the live label table again
+    ('c4-stable-live-env', ['C12'], [(A, "                return imm.eval(p, constants, i.line)\n            except AssemblerError:\n                return None\n        # the target", "                return imm.eval(p, e, i.line)\n            except AssemblerError:\n                return None\n        # the target")]),
+    # one predicate back on the moving value
+    ('c4-imm-between-unstable', ['C12'], [(A, "            imm = stable_immediate(i, p, e)\n            return imm is not None and imm >= lo and imm <= hi", "            imm = eval_immediate(i, p, e)\n            return imm >= lo and imm <= hi")]),
 ]
 BREAKING += [
     # ... but the predicate that selects c.jr / c.jalr must not: without the Arithmetic guard a %lo immediate is judged again
